@@ -268,6 +268,53 @@ func dispatch(c *core.Ctx) {
 			}
 		}
 	}
+	// order within one file: the writer chosen for an element must not depend on elements generated before it
+	seqOK := true
+	others := []pair{{"link", "href"}, {"area", "href"}, {"div", "href"}, {"x-el", "action"}, {"button", "formaction"}, {"img", "src"}}
+	targets := []pair{{"a", "href"}, {"form", "action"}, {"A", "HREF"}, {"fORM", "Action"}}
+	for _, o := range others {
+		for _, t := range targets {
+			for _, order := range [][]pair{{o, t}, {t, o}, {o, o, t}, {t, o, t}} {
+				var sb strings.Builder
+				sb.WriteString("package p\n\ntempl t(x templ.SafeURL) {\n")
+				want := 0
+				for _, e := range order {
+					el := e.e
+					if el == "A" || el == "fORM" { // the parser wants a lower-case first letter
+						el = strings.ToLower(el[:1]) + el[1:]
+					}
+					void := el == "link" || el == "area" || el == "img"
+					if void {
+						fmt.Fprintf(&sb, "\t<%s %s={ x }/>\n", el, e.a)
+					} else {
+						fmt.Fprintf(&sb, "\t<%s %s={ x }></%s>\n", el, e.a, el)
+					}
+					if (strings.EqualFold(el, "a") && strings.EqualFold(e.a, "href")) || (strings.EqualFold(el, "form") && strings.EqualFold(e.a, "action")) {
+						want++
+					}
+				}
+				sb.WriteString("}\n")
+				tf, err := parser.ParseString(sb.String())
+				if err != nil {
+					continue
+				}
+				var buf bytes.Buffer
+				if _, err := generator.Generate(tf, &buf); err != nil {
+					continue
+				}
+				got := strings.Count(buf.String(), " templ.SafeURL = x")
+				c.Count("dispatch-order:" + sb.String())
+				if got != want {
+					seqOK = false
+					if c.NFails("dispatch: independent of the elements generated before") < 4 {
+						c.Fail("property", "dispatch: independent of the elements generated before", "", map[string]any{"template": sb.String(), "url_writers_generated": got, "url_writers_required": want},
+							"an <a href> / <form action> later in the file is generated through the plain string writer (or vice versa)")
+					}
+				}
+			}
+		}
+	}
+	c.Oblige("correspondence", "dispatch: the writer chosen for a/href and form/action does not depend on what was generated before in the same file", seqOK, "")
 	c.Oblige("correspondence", "dispatch: url_sink model = generator's choice of attribute writer on every spelling", tieOK, "")
 	c.Oblige("correspondence", "dispatch: every spelling of a/href and form/action accepted by the parser takes the URL writer", propOK, "")
 	c.Oblige("correspondence", "dispatch: the attribute value is written through templ.EscapeString", escOK, "")
